@@ -3,10 +3,17 @@
 set -e
 cd "$(dirname "$0")"
 V=.venv
-if [ -x $V/bin/python ] && $V/bin/python -c "import crosshair, z3, resolva" 2>/dev/null; then exit 0; fi
+cvc5_once() {  # second solver for engine Z's cross-check; optional: without it the cross-check reports "undecided"
+  if [ ! -e $V/.cvc5_tried ]; then
+    PIP_NO_INDEX=1 $V/bin/pip install -q --no-index --find-links /opt/veriftools/wheels cvc5 >/dev/null 2>&1 || true
+    touch $V/.cvc5_tried
+  fi
+}
+if [ -x $V/bin/python ] && $V/bin/python -c "import crosshair, z3, resolva" 2>/dev/null; then cvc5_once; exit 0; fi
 rm -rf $V
 /venv/bin/python -m venv $V
 SP=$($V/bin/python -c "import sysconfig; print(sysconfig.get_paths()['purelib'])")
 echo "import site; site.addsitedir('/venv/lib/python3.12/site-packages')" > "$SP/_venv_overlay.pth"
 PIP_NO_INDEX=1 $V/bin/pip install -q --no-index --find-links /opt/veriftools/wheels crosshair-tool z3-solver
 $V/bin/python -c "import crosshair, z3, resolva"
+cvc5_once
